@@ -96,9 +96,9 @@ def next (st : St) (acc : Acc) (c : Char) : Next :=
       if acc.digits.length == 1 && acc.leadingZero then .fail .leadingZero
       else .cont (.intDigits false) { acc with digits := acc.digits ++ [digitVal c] }
     else if !us && c == '_' then .cont (.intDigits true) acc
+    else if us then .fail .missingDigitAfterUnderscore
     else if c == '.' then .cont .dot acc
     else if c == 'e' || c == 'E' then .cont .exp acc
-    else if us then .fail .missingDigitAfterUnderscore
     else .stop
   | .dot =>
     if isDigit c then
@@ -110,8 +110,8 @@ def next (st : St) (acc : Acc) (c : Char) : Next :=
       .cont (.fracDigits false)
         { acc with digits := acc.digits ++ [digitVal c], implicitExp := acc.implicitExp - 1 }
     else if !us && c == '_' then .cont (.fracDigits true) acc
-    else if c == 'e' || c == 'E' then .cont .exp acc
     else if us then .fail .missingDigitAfterUnderscore
+    else if c == 'e' || c == 'E' then .cont .exp acc
     else .stop
   | .exp =>
     if c == '+' then .cont .expSign acc
